@@ -367,6 +367,14 @@ func init() {
 	}
 	a18 = append(a18, apuEv{K: "w", A: 0xff26, V: 0x00}, apuEv{K: "w", A: 0xff26, V: 0x80}, apuEv{K: "t1"}, apuEv{K: "t2048"}, apuEv{K: "t4096"})
 	apuAlphabets["c18"] = a18
+	// reduced value set for the deeper thorough-tier enumeration
+	var a18r []apuEv
+	for _, ev := range a18 {
+		if ev.K != "w" || ev.A == 0xff26 || ev.V == 0x00 || ev.V == 0xff || ev.V == 0x7f || ev.V == 0x55 || ev.V == 0x08 {
+			a18r = append(a18r, ev)
+		}
+	}
+	apuAlphabets["c18r"] = a18r
 
 	register("C18", "model_checking", func(c *Ctx) {
 		if c.R != nil {
@@ -394,10 +402,7 @@ func init() {
 				}
 			}, func() struct{} { return struct{}{} }, c18KeepCheck)
 		depth := 3
-		if c.Thorough() {
-			depth = 4
-		}
-		explore.Product(c.R, "write-power-time-sequences", explore.PartOpt{Bound: fmt.Sprintf("every sequence up to depth %d over %d events", depth, len(a18)), Domain: "from power-on; from a powered-off start; from the second half of a frame-sequencer period (plain; all length counters at 1; all length counters at 1 and all channels playing)"},
+		explore.Product(c.R, "write-power-time-sequences", explore.PartOpt{Bound: fmt.Sprintf("every sequence up to depth %d over %d events (thorough: additionally depth 4 over the %d events with the value set {00,FF,7F,55,08})", depth, len(a18), len(apuAlphabets["c18r"])), Domain: "from power-on; from a powered-off start; from the second half of a frame-sequencer period (plain; all length counters at 1; all length counters at 1 and all channels playing)"},
 			func(yield func(apuCase) bool) {
 				// non-initial start states: powered off; second half of a frame-sequencer period; every length
 				// counter one clock from expiry there; and additionally all four channels playing
@@ -415,6 +420,13 @@ func init() {
 					for i := range a18 {
 						if !yield(apuCase{Name: "c18", Pre: pre, First: i, Depth: depth, Alpha: "c18", Full: true}) {
 							return
+						}
+					}
+					if c.Thorough() {
+						for i := range apuAlphabets["c18r"] {
+							if !yield(apuCase{Name: "c18", Pre: pre, First: i, Depth: 4, Alpha: "c18r", Full: true}) {
+								return
+							}
 						}
 					}
 				}
